@@ -207,6 +207,30 @@ def fresh_seq(st, n, elem_shape, hint, measure=None):
             bounds = [lf(*qs) >= shape.min_len] + ([lf(*qs) <= shape.max_len] if shape.max_len is not None else [])
             st.assume(z3.ForAll(qs, z3.And(*bounds)))
 
+            if getattr(shape, "measure", None) is not None:
+                # rows that carry the prefix sum of measure(cell) (as a top-level list with `measure` does): one more
+                # leaf function msum(row indices, k), its defining equation instantiated at every cell that is read
+                mf = z3.Function(f"{base}{path}#msum", *dom, z3.IntSort(), z3.IntSort())
+
+                def g(*idx, lf=lf, inner=inner, shape=shape, mf=mf):  # noqa: F811
+                    zi = zs(idx)
+
+                    def getter(j):
+                        v = inner(*idx, j)
+                        zj = zint(j)
+                        cur().assume(mf(*zi, zj + 1) == mf(*zi, zj) + zint(shape.measure(v)))
+                        return v
+
+                    def psum(k):
+                        cur().assume(mf(*zi, z3.IntVal(0)) == 0)
+                        return mk_int(mf(*zi, zint(k)))
+
+                    r = SSeq(mk_int(lf(*zi)), getter, shape.elem, psum, name=f"{base}{path}[]")
+                    r.measure = shape.measure
+                    return r
+
+                return g
+
             def g(*idx, lf=lf, inner=inner, shape=shape):
                 return SSeq(mk_int(lf(*zs(idx))), lambda j: inner(*idx, j), shape.elem, None, name=f"{base}{path}[]")
 
@@ -578,6 +602,8 @@ def seq_slice1(s, lo, hi):
             return s.psum(lo + k) - s.psum(lo)
 
     r = SSeq(n, lambda i: s.get(lo + i), s.shape, psum, "slice")
+    if getattr(s, "measure", None) is not None:
+        r.measure = s.measure  # (the slice of a list that carries sum-of-measure(element) carries it too: see seq_concat)
     for c, f in s.cpsum.items():
         r.cpsum[c] = lambda k, f=f: f(lo + k) - f(lo)
     if s.expand is not None and 1 in s.cpsum:
